@@ -124,6 +124,10 @@ def structures():
                              R("D", "alternate", None, ("e1", "e2")))))
     out.append(("bundle-empty", (("bundle", "b1"),)))
     out.append(("bundle-one", (("bundle", "b1"), E("b1", "e1", lab))))
+    out.append(("duplicates-in-bundle-only", (E("D", "top"), ("bundle", "b1"), E("b1", "e1", (("colour", "red"),)),
+                                              E("b1", "e1", (("size", 42),)), AC("b1", "a1"),
+                                              R("b1", "usage", "u", ("a1", "e1", None), (("k", "v"),)),
+                                              R("b1", "usage", "u", ("a1", "e1", None), (("k2", 2),)))))
     out.append(("bundle-same-uri-as-doc", (E("D", "e1", lab), ("bundle", "b1"), E("b1", "e1"), AC("b1", "a1"),
                                            R("b1", "generation", None, ("e1", "a1", None)))))
     out.append(("doc-relation-to-bundle-uri", (E("D", "e1"), AC("D", "a1"), ("bundle", "b1"), E("b1", "e1"),
